@@ -1,0 +1,16 @@
+// +build verif
+
+package node
+
+import "github.com/Oneledger/protocol/data/keys"
+
+// NewContextForVerif builds a node Context from in-memory keys (the normal
+// constructor reads Tendermint key files).
+func NewContextForVerif(name string, nodeKey, valKey, ecdsaKey keys.PrivateKey) *Context {
+	return &Context{
+		NodeName:     name,
+		privateKey:   nodeKey,
+		privval:      valKey,
+		ecdsaPrivVal: ecdsaKey,
+	}
+}
